@@ -96,14 +96,28 @@ def pick(kind: Kind, one: int, two: int) -> int:
 '''
 
 
+# file stems of the abstract modules: every dotted path is a string prefix of another one (vm.n < vm.n1 < vm.n10, vm.n100), so
+# that nothing in the code under test may select a module - or its symbols - by partial match of the path
+STEM4 = {'a': 'n10', 'b': 'n1', 'c': 'n', 'd': 'n100'}
+
+
+def _stemmed(text: str) -> str:
+	import re
+	return re.sub(r'\bvm\.([abcd])\b', lambda mm: f'vm.{STEM4[mm.group(1)]}', text)
+
+
+DISK = {m: _stemmed(src) for m, src in DISK.items()}
+MAIN = {m: _stemmed(src) for m, src in MAIN.items()}
+
+
 def real_name(m: str) -> str:
-	return '__main__' if m == 'main' else f'vm.{m}'
+	return '__main__' if m == 'main' else f'vm.{STEM4[m]}'
 
 
 def setup_disk(root: str) -> None:
 	os.makedirs(os.path.join(root, 'vm'), exist_ok=True)
 	for m, src in DISK.items():
-		with open(os.path.join(root, 'vm', f'{m}.py'), 'w') as f:
+		with open(os.path.join(root, 'vm', f'{STEM4[m]}.py'), 'w') as f:
 			f.write(src)
 
 
